@@ -118,7 +118,9 @@ def buildHandler (tiled : Bool) : Handler := fun j => do
         ("bits", (o.bits : Nat)),
         ("overlap", overlapStr ov),
         ("frames", Json.arr (frames.map fun f => Json.arr #[segToJson f.seg, (f.plane : Nat), natsToJson f.px]).toArray),
-        ("dims", Json.arr ((frameDims (planOrder arr mfv omt order).2 (frames.map fun f => (f.seg, f.plane))).map natsToJson).toArray),
+        ("dims", Json.arr ((if (getBool j "for").toOption.getD true
+              then frameDims (planOrder arr mfv omt order).2 (frames.map fun f => (f.seg, f.plane))
+              else frameDimsNoFoR (frames.map fun f => (f.seg, f.plane))).map natsToJson).toArray),
         ("pd", pdJson)])
     pure (exceptToJson id r)
 
